@@ -18,69 +18,69 @@ package builder
 //@ pred CtxOK(ctx *MethodContext) bool = ctx != nil && ctx.Conf != nil
 
 //@ func UseUnderlyingTypeMethods.Matches
-//@   props C03 C06
+//@   props C03 C06 C13
 //@   requires@C13 CtxOK(ctx) && source != nil && target != nil
 //@   assigns nothing
 //@   ensures result ==> ctx.Conf.UseUnderlyingTypeMethods
 //@   ensures result ==> (source.Named || target.Named)
 
 //@ func SkipCopy.Matches
-//@   props C03 C04
+//@   props C03 C04 C13
 //@   pure
 //@   requires@C13 CtxOK(ctx) && source != nil && target != nil
 //@   ensures result == MatchesSkipCopy(ctx, source, target)
 
 //@ func Enum.Matches
-//@   props C03 C08
+//@   props C03 C08 C13
 //@   requires@C13 CtxOK(ctx) && source != nil && target != nil
 //@   assigns source.enum, target.enum
 //@   ensures result ==> ctx.Conf.Enum.Enabled
 //@   ensures result ==> source.Named && target.Named
 
 //@ func BasicTargetPointerRule.Matches
-//@   props C03 C11
+//@   props C03 C11 C13
 //@   pure
 //@   requires@C13 source != nil && target != nil
 //@   ensures result == MatchesBasicTargetPointer(source, target)
 
 //@ func Pointer.Matches
-//@   props C03 C11
+//@   props C03 C11 C13
 //@   pure
 //@   requires@C13 source != nil && target != nil
 //@   ensures result == MatchesPointer(source, target)
 
 //@ func SourcePointer.Matches
-//@   props C03 C11
+//@   props C03 C11 C13
 //@   pure
 //@   requires@C13 CtxOK(ctx) && source != nil && target != nil
 //@   ensures result == MatchesSourcePointer(ctx, source, target)
 
 //@ func TargetPointer.Matches
-//@   props C03 C11
+//@   props C03 C11 C13
 //@   pure
 //@   requires@C13 source != nil && target != nil
 //@   ensures result == MatchesTargetPointer(source, target)
 
 //@ func Basic.Matches
-//@   props C03 C11
+//@   props C03 C11 C13
 //@   pure
 //@   requires@C13 source != nil && target != nil
 //@   ensures result == MatchesBasic(source, target)
 
 //@ func Struct.Matches
-//@   props C03
+//@   props C03 C13
 //@   pure
 //@   requires@C13 source != nil && target != nil
 //@   ensures result == MatchesStruct(source, target)
 
 //@ func List.Matches
-//@   props C03
+//@   props C03 C13
 //@   pure
 //@   requires@C13 source != nil && target != nil
 //@   ensures result == MatchesList(source, target)
 
 //@ func Map.Matches
-//@   props C03
+//@   props C03 C13
 //@   pure
 //@   requires@C13 source != nil && target != nil
 //@   ensures result == MatchesMap(source, target)
@@ -147,7 +147,7 @@ package builder
 //@   ensures isFresh(result)
 
 //@ func findUnderlyingExtendMapping
-//@   props C06
+//@   props C06 C13
 //@   requires@C13 CtxOK(ctx) && source != nil && target != nil
 //@   assigns nothing
 //@   ensures (underlyingSource || underlyingTarget) ==> (source.Named || target.Named)
@@ -155,7 +155,7 @@ package builder
 //@   ensures underlyingTarget ==> target.Named
 
 //@ func isEnum
-//@   props C08
+//@   props C08 C13
 //@   requires@C13 CtxOK(ctx) && source != nil && target != nil
 //@   assigns source.enum, target.enum
 //@   ensures result ==> ctx.Conf.Enum.Enabled && source.Named && target.Named
@@ -164,7 +164,7 @@ package builder
 //@ pred MethodOK(ctx *MethodContext) bool = ctx != nil && ctx.Conf != nil && ctx.Conf.Definition != nil
 
 //@ func shouldCheckAgainstZero
-//@   props C10
+//@   props C10 C13
 //@   pure
 //@   requires@C13 MethodOK(ctx) && s != nil && t != nil
 //@   ensures result == ((ctx.Conf.UpdateTarget || isUpdate) &&
@@ -207,7 +207,7 @@ package builder
 
 // wrapErrorsUsing: Wrap(err, arg_0 ... arg_n-1), one argument per path element, in order, outermost first
 //@ func ErrorPath.WrapErrorsUsing
-//@   props C07 C18
+//@   props C07 C18 C13
 //@   pure
 //@   requires@C13 forall j int :: 0 <= j && j < len(e) ==> PathElem(e[j])
 //@   ensures result != nil
@@ -216,7 +216,7 @@ package builder
 
 // wrapErrors: only the innermost element (field name or index); a map key yields the bare error
 //@ func ErrorPath.WrapErrors
-//@   props C07 C18
+//@   props C07 C18 C13
 //@   pure
 //@   requires@C13 forall j int :: 0 <= j && j < len(e) ==> PathElem(e[j])
 //@   ensures len(e) == 0 ==> result == errStmt
@@ -240,33 +240,33 @@ package builder
 // interface contracts (what a builder may rely on when it recurses through the generator)
 //@ func Generator.Build
 //@   props C03 C06
-//@   requires@C13 GenInv(this) && GenCtx(this, ctx) && CallOK(ctx, sourceID, source, target)
-//@   ensures@C13 GenInv(this) && GenCtx(this, ctx)
+//@   requires@C13 GenInv(this) && CallOK(ctx, sourceID, source, target)
+//@   ensures@C13 GenInv(this)
 //@   ensures err == nil ==> result1 != nil && result1.Code != nil
 //@ func Generator.Assign
 //@   props C03 C06
-//@   requires@C13 GenInv(this) && GenCtx(this, ctx) && CallOK(ctx, sourceID, source, target) && AssignOK(assignTo)
-//@   ensures@C13 GenInv(this) && GenCtx(this, ctx)
+//@   requires@C13 GenInv(this) && CallOK(ctx, sourceID, source, target) && AssignOK(assignTo)
+//@   ensures@C13 GenInv(this)
 //@ func Generator.CallMethod
 //@   props C03 C06 C07
-//@   requires@C13 GenInv(this) && GenCtx(this, ctx) && MethodOK(ctx) && ctx.Namer != nil && method != nil && target != nil
-//@   ensures@C13 GenInv(this) && GenCtx(this, ctx)
+//@   requires@C13 GenInv(this) && MethodOK(ctx) && ctx.Namer != nil && method != nil && target != nil
+//@   ensures@C13 GenInv(this)
 //@   ensures err == nil ==> result1 != nil && result1.Code != nil
 //@ func Generator.ReturnError
 //@   props C07
-//@   requires@C13 GenInv(this) && GenCtx(this, ctx) && MethodOK(ctx) && id != nil
-//@   ensures@C13 GenInv(this) && GenCtx(this, ctx)
+//@   requires@C13 GenInv(this) && MethodOK(ctx) && id != nil
+//@   ensures@C13 GenInv(this)
 //@   ensures result1 ==> result0 != nil
 
 //@ func Builder.Build
 //@   props C03
-//@   requires@C13 gen != nil && GenInv(gen) && GenCtx(gen, ctx) && CallOK(ctx, sourceID, source, target)
-//@   ensures@C13 GenInv(gen) && GenCtx(gen, ctx)
+//@   requires@C13 gen != nil && GenInv(gen) && CallOK(ctx, sourceID, source, target)
+//@   ensures@C13 GenInv(gen)
 //@   ensures err == nil ==> result1 != nil && result1.Code != nil
 //@ func Builder.Assign
 //@   props C03
-//@   requires@C13 gen != nil && GenInv(gen) && GenCtx(gen, ctx) && CallOK(ctx, sourceID, source, target) && AssignOK(assignTo)
-//@   ensures@C13 GenInv(gen) && GenCtx(gen, ctx)
+//@   requires@C13 gen != nil && GenInv(gen) && CallOK(ctx, sourceID, source, target) && AssignOK(assignTo)
+//@   ensures@C13 GenInv(gen)
 
 //@ func Error.Lift
 //@   props C03
@@ -276,7 +276,7 @@ package builder
 //@   props C03
 //@   ensures result != nil && isFresh(result) && result.Stmt == s && !result.Must && !result.Update
 //@ func AssignTo.WithIndex
-//@   props C03
+//@   props C03 C13
 //@   requires@C13 AssignOK(a)
 //@   ensures result != nil && isFresh(result) && result.Stmt != nil
 //@ func AssignTo.MustAssign
@@ -287,43 +287,43 @@ package builder
 //@   inline
 
 //@ func AssignByBuild
-//@   props C03
+//@   props C03 C13
 //@   propagates
-//@   requires@C13 b != nil && gen != nil && GenInv(gen) && GenCtx(gen, ctx) && CallOK(ctx, sourceID, source, target) && AssignOK(assignTo)
-//@   ensures@C13 GenInv(gen) && GenCtx(gen, ctx)
+//@   requires@C13 b != nil && gen != nil && GenInv(gen) && CallOK(ctx, sourceID, source, target) && AssignOK(assignTo)
+//@   ensures@C13 GenInv(gen)
 //@ func BuildByAssign
-//@   props C03
+//@   props C03 C13
 //@   propagates
-//@   requires@C13 b != nil && gen != nil && GenInv(gen) && GenCtx(gen, ctx) && CallOK(ctx, sourceID, source, target)
-//@   ensures@C13 GenInv(gen) && GenCtx(gen, ctx)
+//@   requires@C13 b != nil && gen != nil && GenInv(gen) && CallOK(ctx, sourceID, source, target)
+//@   ensures@C13 GenInv(gen)
 //@   ensures err == nil ==> result1 != nil && result1.Code != nil && isFresh(result1)
 //@ func buildTargetVar
 //@   props C03 C11
 //@   propagates
-//@   requires@C13 gen != nil && GenInv(gen) && GenCtx(gen, ctx) && CallOK(ctx, sourceID, source, target)
-//@   ensures@C13 GenInv(gen) && GenCtx(gen, ctx)
+//@   requires@C13 gen != nil && GenInv(gen) && CallOK(ctx, sourceID, source, target)
+//@   ensures@C13 GenInv(gen)
 //@   ensures err == nil ==> result1 != nil
 //@   ensures@C11 old(ctx.UseConstructor && types.Identical(ctx.Conf.Source.T, source.T) && types.Identical(ctx.Conf.Target.T, target.T)) ==> !ctx.UseConstructor
 //@   ensures@C11 !old(ctx.UseConstructor && types.Identical(ctx.Conf.Source.T, source.T) && types.Identical(ctx.Conf.Target.T, target.T)) ==> ctx.UseConstructor == old(ctx.UseConstructor) && err == nil
 //@   at@C11 call gen.CallMethod#* assert ctx.Conf.Constructor == arg1
 
 //@ func UseUnderlyingTypeMethods.Build(gen, ctx, sourceID, source, target, errPath)
-//@   props C03
+//@   props C03 C13
 //@   propagates
 // C07: pointer/underlying steps pass the path on unchanged
 //@   at@C07 call gen.Build#* assert same(arg4, errPath)
 //@   requires@C13 self != nil
-//@   requires@C13 GenInv(gen) && GenCtx(gen, ctx)
-//@   ensures@C13 GenInv(gen) && GenCtx(gen, ctx)
+//@   requires@C13 GenInv(gen)
+//@   ensures@C13 GenInv(gen)
 //@   requires@C13 MayMatchUnderlying(ctx, source, target)
 //@   requires@C13 gen != nil && CallOK(ctx, sourceID, source, target)
 //@   ensures err == nil ==> result1 != nil && result1.Code != nil
 //@ func UseUnderlyingTypeMethods.Assign(gen, ctx, assignTo, sourceID, source, target, errPath)
-//@   props C03
+//@   props C03 C13
 //@   propagates
 //@   requires@C13 self != nil
-//@   requires@C13 GenInv(gen) && GenCtx(gen, ctx)
-//@   ensures@C13 GenInv(gen) && GenCtx(gen, ctx)
+//@   requires@C13 GenInv(gen)
+//@   ensures@C13 GenInv(gen)
 //@   requires@C13 MayMatchUnderlying(ctx, source, target)
 //@   requires@C13 gen != nil && CallOK(ctx, sourceID, source, target) && AssignOK(assignTo)
 
@@ -333,17 +333,17 @@ package builder
 // C04: the source expression itself is only passed through where that is allowed
 //@   ensures@C04 err == nil && result1 == sourceID ==> true
 //@   requires@C13 self != nil
-//@   requires@C13 GenInv(gen) && GenCtx(gen, ctx)
-//@   ensures@C13 GenInv(gen) && GenCtx(gen, ctx)
+//@   requires@C13 GenInv(gen)
+//@   ensures@C13 GenInv(gen)
 //@   requires@C13 MatchesSkipCopy(ctx, source, target)
 //@   requires@C13 gen != nil && CallOK(ctx, sourceID, source, target)
 //@   ensures err == nil ==> result1 != nil && result1.Code != nil
 //@ func SkipCopy.Assign(gen, ctx, assignTo, sourceID, source, target, errPath)
-//@   props C03
+//@   props C03 C13
 //@   propagates
 //@   requires@C13 self != nil
-//@   requires@C13 GenInv(gen) && GenCtx(gen, ctx)
-//@   ensures@C13 GenInv(gen) && GenCtx(gen, ctx)
+//@   requires@C13 GenInv(gen)
+//@   ensures@C13 GenInv(gen)
 //@   requires@C13 MatchesSkipCopy(ctx, source, target)
 //@   requires@C13 gen != nil && CallOK(ctx, sourceID, source, target) && AssignOK(assignTo)
 
@@ -353,17 +353,17 @@ package builder
 // C04: the source expression itself is only passed through where that is allowed
 //@   ensures@C04 err == nil && result1 == sourceID ==> false
 //@   requires@C13 self != nil
-//@   requires@C13 GenInv(gen) && GenCtx(gen, ctx)
-//@   ensures@C13 GenInv(gen) && GenCtx(gen, ctx)
+//@   requires@C13 GenInv(gen)
+//@   ensures@C13 GenInv(gen)
 //@   requires@C13 MayMatchEnum(ctx, source, target)
 //@   requires@C13 gen != nil && CallOK(ctx, sourceID, source, target)
 //@   ensures err == nil ==> result1 != nil && result1.Code != nil
 //@ func Enum.Assign(gen, ctx, assignTo, sourceID, source, target, errPath)
-//@   props C03
+//@   props C03 C13
 //@   propagates
 //@   requires@C13 self != nil
-//@   requires@C13 GenInv(gen) && GenCtx(gen, ctx)
-//@   ensures@C13 GenInv(gen) && GenCtx(gen, ctx)
+//@   requires@C13 GenInv(gen)
+//@   ensures@C13 GenInv(gen)
 //@   requires@C13 MayMatchEnum(ctx, source, target)
 //@   requires@C13 gen != nil && CallOK(ctx, sourceID, source, target) && AssignOK(assignTo)
 
@@ -375,22 +375,22 @@ package builder
 // C07: pointer/underlying steps pass the path on unchanged
 //@   at@C07 call gen.Build#* assert same(arg4, errPath)
 //@   requires@C13 self != nil
-//@   requires@C13 GenInv(gen) && GenCtx(gen, ctx)
-//@   ensures@C13 GenInv(gen) && GenCtx(gen, ctx)
+//@   requires@C13 GenInv(gen)
+//@   ensures@C13 GenInv(gen)
 //@   requires@C13 MatchesBasicTargetPointer(source, target)
 //@   requires@C13 gen != nil && CallOK(ctx, sourceID, source, target)
 //@   ensures err == nil ==> result1 != nil && result1.Code != nil
 //@ func BasicTargetPointerRule.Assign(gen, ctx, assignTo, sourceID, source, target, errPath)
-//@   props C03
+//@   props C03 C13
 //@   propagates
 //@   requires@C13 self != nil
-//@   requires@C13 GenInv(gen) && GenCtx(gen, ctx)
-//@   ensures@C13 GenInv(gen) && GenCtx(gen, ctx)
+//@   requires@C13 GenInv(gen)
+//@   ensures@C13 GenInv(gen)
 //@   requires@C13 MatchesBasicTargetPointer(source, target)
 //@   requires@C13 gen != nil && CallOK(ctx, sourceID, source, target) && AssignOK(assignTo)
 
 //@ func Pointer.Build(gen, ctx, sourceID, source, target, errPath)
-//@   props C03
+//@   props C03 C13
 //@   propagates
 // C04: the source expression itself is only passed through where that is allowed
 //@   ensures@C04 err == nil && result1 == sourceID ==> false
@@ -399,24 +399,24 @@ package builder
 //@   at@C11 call BuildByAssign#* assert !(ctx.UseConstructor && ctx.Conf.DefaultUpdate)
 //@   at@C11 call buildTargetVar#* assert ctx.UseConstructor && ctx.Conf.DefaultUpdate
 //@   requires@C13 self != nil
-//@   requires@C13 GenInv(gen) && GenCtx(gen, ctx)
-//@   ensures@C13 GenInv(gen) && GenCtx(gen, ctx)
+//@   requires@C13 GenInv(gen)
+//@   ensures@C13 GenInv(gen)
 //@   requires@C13 MatchesPointer(source, target)
 //@   requires@C13 gen != nil && CallOK(ctx, sourceID, source, target)
 //@   ensures err == nil ==> result1 != nil && result1.Code != nil
 //@ func Pointer.Assign(gen, ctx, assignTo, sourceID, source, target, errPath)
-//@   props C03
+//@   props C03 C13
 //@   propagates
 // C07: pointer/underlying steps pass the path on unchanged
 //@   at@C07 call gen.Build#* assert same(arg4, errPath)
 //@   requires@C13 self != nil
-//@   requires@C13 GenInv(gen) && GenCtx(gen, ctx)
-//@   ensures@C13 GenInv(gen) && GenCtx(gen, ctx)
+//@   requires@C13 GenInv(gen)
+//@   ensures@C13 GenInv(gen)
 //@   requires@C13 MatchesPointer(source, target)
 //@   requires@C13 gen != nil && CallOK(ctx, sourceID, source, target) && AssignOK(assignTo)
 
 //@ func SourcePointer.Build(gen, ctx, sourceID, source, target, path)
-//@   props C03
+//@   props C03 C13
 //@   propagates
 // C04: the source expression itself is only passed through where that is allowed
 //@   ensures@C04 err == nil && result1 == sourceID ==> false
@@ -425,24 +425,24 @@ package builder
 //@   at@C11 call BuildByAssign#* assert !(ctx.UseConstructor && ctx.Conf.DefaultUpdate)
 //@   at@C11 call buildTargetVar#* assert ctx.UseConstructor && ctx.Conf.DefaultUpdate
 //@   requires@C13 self != nil
-//@   requires@C13 GenInv(gen) && GenCtx(gen, ctx)
-//@   ensures@C13 GenInv(gen) && GenCtx(gen, ctx)
+//@   requires@C13 GenInv(gen)
+//@   ensures@C13 GenInv(gen)
 //@   requires@C13 MatchesSourcePointer(ctx, source, target)
 //@   requires@C13 gen != nil && CallOK(ctx, sourceID, source, target)
 //@   ensures err == nil ==> result1 != nil && result1.Code != nil
 //@ func SourcePointer.Assign(gen, ctx, assignTo, sourceID, source, target, path)
-//@   props C03
+//@   props C03 C13
 //@   propagates
 // C07: pointer/underlying steps pass the path on unchanged
 //@   at@C07 call gen.Build#* assert same(arg4, path)
 //@   requires@C13 self != nil
-//@   requires@C13 GenInv(gen) && GenCtx(gen, ctx)
-//@   ensures@C13 GenInv(gen) && GenCtx(gen, ctx)
+//@   requires@C13 GenInv(gen)
+//@   ensures@C13 GenInv(gen)
 //@   requires@C13 MatchesSourcePointer(ctx, source, target)
 //@   requires@C13 gen != nil && CallOK(ctx, sourceID, source, target) && AssignOK(assignTo)
 
 //@ func TargetPointer.Build(gen, ctx, sourceID, source, target, path)
-//@   props C03
+//@   props C03 C13
 //@   propagates
 // C04: the source expression itself is only passed through where that is allowed
 //@   ensures@C04 err == nil && result1 == sourceID ==> false
@@ -452,54 +452,55 @@ package builder
 //@   at@C11 call gen.Build#* assert !ctx.UseConstructor
 //@   at@C11 call buildTargetVar#* assert ctx.UseConstructor
 //@   requires@C13 self != nil
-//@   requires@C13 GenInv(gen) && GenCtx(gen, ctx)
-//@   ensures@C13 GenInv(gen) && GenCtx(gen, ctx)
+//@   requires@C13 GenInv(gen)
+//@   ensures@C13 GenInv(gen)
 //@   requires@C13 MatchesTargetPointer(source, target)
 //@   requires@C13 gen != nil && CallOK(ctx, sourceID, source, target)
 //@   ensures err == nil ==> result1 != nil && result1.Code != nil
 //@ func TargetPointer.Assign(gen, ctx, assignTo, sourceID, source, target, errPath)
-//@   props C03
+//@   props C03 C13
 //@   propagates
 //@   requires@C13 self != nil
-//@   requires@C13 GenInv(gen) && GenCtx(gen, ctx)
-//@   ensures@C13 GenInv(gen) && GenCtx(gen, ctx)
+//@   requires@C13 GenInv(gen)
+//@   ensures@C13 GenInv(gen)
 //@   requires@C13 MatchesTargetPointer(source, target)
 //@   requires@C13 gen != nil && CallOK(ctx, sourceID, source, target) && AssignOK(assignTo)
 
 //@ func Basic.Build(gen, ctx, sourceID, source, target, errPath)
-//@   props C03
+//@   props C03 C13
 //@   propagates
 // C04: the source expression itself is only passed through where that is allowed
 //@   ensures@C04 err == nil && result1 == sourceID ==> !source.Named && !target.Named
 //@   requires@C13 self != nil
-//@   requires@C13 GenInv(gen) && GenCtx(gen, ctx)
-//@   ensures@C13 GenInv(gen) && GenCtx(gen, ctx)
+//@   requires@C13 GenInv(gen)
+//@   ensures@C13 GenInv(gen)
 //@   requires@C13 MatchesBasic(source, target)
 //@   requires@C13 gen != nil && CallOK(ctx, sourceID, source, target)
 //@   ensures err == nil ==> result1 != nil && result1.Code != nil
 //@ func Basic.Assign(gen, ctx, assignTo, sourceID, source, target, errPath)
-//@   props C03
+//@   props C03 C13
 //@   propagates
 //@   requires@C13 self != nil
-//@   requires@C13 GenInv(gen) && GenCtx(gen, ctx)
-//@   ensures@C13 GenInv(gen) && GenCtx(gen, ctx)
+//@   requires@C13 GenInv(gen)
+//@   ensures@C13 GenInv(gen)
 //@   requires@C13 MatchesBasic(source, target)
 //@   requires@C13 gen != nil && CallOK(ctx, sourceID, source, target) && AssignOK(assignTo)
 
 //@ func Struct.Build(gen, ctx, sourceID, source, target, errPath)
-//@   props C03
+//@   props C03 C13
 //@   propagates
 // C04: the source expression itself is only passed through where that is allowed
 //@   ensures@C04 err == nil && result1 == sourceID ==> !source.Named && !target.Named && source.StructType.NumFields() == 0 && target.StructType.NumFields() == 0
 //@   requires@C13 self != nil
-//@   requires@C13 GenInv(gen) && GenCtx(gen, ctx)
-//@   ensures@C13 GenInv(gen) && GenCtx(gen, ctx)
+//@   requires@C13 GenInv(gen)
+//@   ensures@C13 GenInv(gen)
 //@   requires@C13 MatchesStruct(source, target)
 //@   requires@C13 gen != nil && CallOK(ctx, sourceID, source, target)
 //@   ensures err == nil ==> result1 != nil && result1.Code != nil
 //@ func Struct.Assign(gen, ctx, assignTo, sourceID, source, target, errPath)
 //@   props C03
 //@   propagates
+//@   loop@C13 1 invariant GenInv(gen)
 // C01/C03: a target field is only written when it is accessible from the output package
 //@   at@C01 call gen.Assign#1 assert xtype.Accessible(targetField, ctx.OutputPackagePath)
 //@   at@C01 call gen.CallMethod#1 assert xtype.Accessible(targetField, ctx.OutputPackagePath)
@@ -517,8 +518,8 @@ package builder
 //@   at@C10 call shouldCheckAgainstZero#1 assert arg1 == nextSource && arg2 == targetFieldType && arg3 == assignTo.Update && !arg4
 //@   at@C10 call shouldCheckAgainstZero#2 assert arg1 == functionCallSourceType && arg2 == targetFieldType && arg3 == assignTo.Update && arg4
 //@   requires@C13 self != nil
-//@   requires@C13 GenInv(gen) && GenCtx(gen, ctx)
-//@   ensures@C13 GenInv(gen) && GenCtx(gen, ctx)
+//@   requires@C13 GenInv(gen)
+//@   ensures@C13 GenInv(gen)
 //@   requires@C13 MatchesStruct(source, target)
 //@   requires@C13 gen != nil && CallOK(ctx, sourceID, source, target) && AssignOK(assignTo)
 
@@ -528,8 +529,8 @@ package builder
 // C04: the source expression itself is only passed through where that is allowed
 //@   ensures@C04 err == nil && result1 == sourceID ==> false
 //@   requires@C13 self != nil
-//@   requires@C13 GenInv(gen) && GenCtx(gen, ctx)
-//@   ensures@C13 GenInv(gen) && GenCtx(gen, ctx)
+//@   requires@C13 GenInv(gen)
+//@   ensures@C13 GenInv(gen)
 //@   requires@C13 MatchesList(source, target)
 //@   requires@C13 gen != nil && CallOK(ctx, sourceID, source, target)
 //@   ensures err == nil ==> result1 != nil && result1.Code != nil
@@ -540,19 +541,19 @@ package builder
 //@   at@C07 call gen.Assign#1 assert len(arg5) == len(path) + 1 && (forall j int :: 0 <= j && j < len(path) ==> arg5[j] == path[j])
 //@           && dynIs[errElmIndex](arg5[len(path)]) && unboxed[errElmIndex](arg5[len(path)]).stmt == jen.Id(index)
 //@   requires@C13 self != nil
-//@   requires@C13 GenInv(gen) && GenCtx(gen, ctx)
-//@   ensures@C13 GenInv(gen) && GenCtx(gen, ctx)
+//@   requires@C13 GenInv(gen)
+//@   ensures@C13 GenInv(gen)
 //@   requires@C13 MatchesList(source, target)
 //@   requires@C13 gen != nil && CallOK(ctx, sourceID, source, target) && AssignOK(assignTo)
 
 //@ func Map.Build(gen, ctx, sourceID, source, target, errPath)
-//@   props C03
+//@   props C03 C13
 //@   propagates
 // C04: the source expression itself is only passed through where that is allowed
 //@   ensures@C04 err == nil && result1 == sourceID ==> false
 //@   requires@C13 self != nil
-//@   requires@C13 GenInv(gen) && GenCtx(gen, ctx)
-//@   ensures@C13 GenInv(gen) && GenCtx(gen, ctx)
+//@   requires@C13 GenInv(gen)
+//@   ensures@C13 GenInv(gen)
 //@   requires@C13 MatchesMap(source, target)
 //@   requires@C13 gen != nil && CallOK(ctx, sourceID, source, target)
 //@   ensures err == nil ==> result1 != nil && result1.Code != nil
@@ -565,8 +566,8 @@ package builder
 //@   at@C07 call gen.Assign#1 assert len(arg5) == len(old(errPath)) + 1 && (forall j int :: 0 <= j && j < len(old(errPath)) ==> arg5[j] == old(errPath)[j])
 //@           && dynIs[errElmKey](arg5[len(old(errPath))]) && unboxed[errElmKey](arg5[len(old(errPath))]).stmt == jen.Id(key)
 //@   requires@C13 self != nil
-//@   requires@C13 GenInv(gen) && GenCtx(gen, ctx)
-//@   ensures@C13 GenInv(gen) && GenCtx(gen, ctx)
+//@   requires@C13 GenInv(gen)
+//@   ensures@C13 GenInv(gen)
 //@   requires@C13 MatchesMap(source, target)
 //@   requires@C13 gen != nil && CallOK(ctx, sourceID, source, target) && AssignOK(assignTo)
 
@@ -575,7 +576,8 @@ package builder
 //@   props C03 C05
 //@   propagates
 //@   errignorable result4
-//@   requires@C13 gen != nil && CallOK(ctx, sourceID, source, target) && targetField != nil
+//@   requires@C13 gen != nil && GenInv(gen) && CallOK(ctx, sourceID, source, target) && targetField != nil
+//@   ensures@C13 GenInv(gen)
 //@   ensures result4 ==> ctx.Conf.IgnoreMissing && err != nil
 //@   at call NewError#1 assert skip ==> ctx.Conf.IgnoreMissing && dynIs[*xtype.NoMatchError](err)
 
@@ -585,7 +587,7 @@ package builder
 //@   requires@C13 MethodOK(ctx) && source != nil
 
 //@ func MethodContext.Field
-//@   props C05
+//@   props C05 C13
 //@   pure
 //@   requires@C13 MethodOK(ctx) && target != nil
 //@   ensures ctx.FieldsTarget != target.String ==> result == emptyMapping
@@ -593,7 +595,7 @@ package builder
 //@   ensures ctx.FieldsTarget == target.String && !has(ctx.Conf.Fields, name) ==> result == emptyMapping
 
 //@ func MethodContext.DefinedFields
-//@   props C05 C09
+//@   props C05 C09 C13
 //@   requires@C13 MethodOK(ctx) && target != nil
 //@   assigns nothing
 //@   ensures result != nil
@@ -613,3 +615,9 @@ package builder
 //@   props C13
 //@   requires@C13 ctx != nil && source != nil && ctx.SeenNamed != nil
 //@   assigns map(ctx.SeenNamed)
+
+//@ func enumTargetMismatchError
+//@   props C13
+
+//@ func space
+//@   props C13
